@@ -1590,7 +1590,20 @@ impl Tree {
 		checkpoint_dir: P,
 	) -> Result<CheckpointMetadata> {
 		let checkpoint = DatabaseCheckpoint::new(Arc::clone(&self.core.inner));
-		checkpoint.create_checkpoint(checkpoint_dir)
+		let result = checkpoint.create_checkpoint(checkpoint_dir);
+
+		// The checkpoint flushes the memtables synchronously, outside the background
+		// flush task, so nothing has scheduled a compaction for the level-0 tables it
+		// produced. Writers stall once level 0 reaches its limit and are only woken
+		// when a compaction finishes: without this wake-up they would wait forever.
+		if let Ok(guard) = self.core.task_manager.lock() {
+			if let Some(task_manager) = guard.as_ref() {
+				task_manager.wake_up_level();
+			}
+		}
+		self.core.write_stall.signal_work_done();
+
+		result
 	}
 
 	/// Restores the database from a checkpoint directory.
